@@ -43,7 +43,8 @@ Value& REPLACEExpression::value(Context & ctx) const
     case Type::NO_TYPE:
       return val;
     case Type::LITERAL:
-      if (a1.isNull())
+      /* nothing to search for: a null or an empty string matches nowhere */
+      if (a1.isNull() || a1.literal()->empty())
         return val;
       break;
     default:
